@@ -90,6 +90,8 @@ def gen_shape(D_, max_rank=3, max_len=6, min_rank=0):
         max_len = min(max_len, 4)  # keep 4-d leaves small
     for _ in range(rank):
         out.append(D_.weighted([(0, 1), (1, 2), (2, 2), (3, 3), (4, 3), (5, 3), (6, 2), (7, 2), (8, 1)] if max_len >= 8 else [(n, (1 if n == 0 else 2 if n == 1 else 3)) for n in range(0, max_len + 1)]))
+    if rank >= 2 and D_.chance(1, 5):
+        out[-1] = out[-2]  # square trailing axes: what x @ x, einsum('ij,ji') and symmetric transposes need
     return tuple(out)
 
 
@@ -1336,7 +1338,7 @@ FAMILY_WEIGHTS = {
     "scan": 3,
     "window": 2,
     "map_blocks": 2,
-    "linalg": 2,
+    "linalg": 3,
 }
 
 
@@ -1504,6 +1506,9 @@ def program_strategy(min_stmts=1, max_stmts=6, max_leaves=2, family_weights=None
                 name = D_.choice(first_ops)
             elif forced_at is not None and len(stmts) == forced_at and not any(t["op"] in ensure_ops for t in stmts):
                 name = D_.choice(list(ensure_ops))
+            elif stmts and vals[-1].ndim == 2 and vals[-1].shape[0] == vals[-1].shape[1] and vals[-1].size > 1 and vals[-1].dtype.kind in "if" and "einsum_perm" in fams.get("linalg", ()) and D_.chance(1, 4):
+                # a freshly produced square matrix: use it twice in one contraction (x @ x, einsum('ij,ji'))
+                name = D_.choice(["einsum_perm", "einsum_perm", "matmul"])
             elif stmts and stmts[-1]["op"] in FOLLOWUPS and D_.chance(2, 5):
                 # producer/consumer pairs whose rewrites interact (pushdowns through the producer)
                 cands = [n for n in FOLLOWUPS[stmts[-1]["op"]] if any(n in v for v in fams.values())]
